@@ -3,13 +3,15 @@ CONSTANTS
   Trees <- SimTrees
   MaxConns <- MC123
   MayFail = TRUE
-  CancelTail = FALSE
+  CancelTail = TRUE
+  AwaitCancelled = TRUE
   ValidateUpFront = FALSE
+
 INVARIANT ConnLimit
 INVARIANT Sequential
 INVARIANT SuccessComplete
 INVARIANT TimingsComplete
 INVARIANT NoSuccessOnFailure
 INVARIANT FailFast
-INVARIANT OrphansOnlyBehindTail
+INVARIANT QuiescentAfterRaise
 CHECK_DEADLOCK FALSE
